@@ -12,8 +12,10 @@ _IMPL_SPEC = '''    open spec fn type_text(&self) -> Seq<char> { self@ }
 GROUP = dict(
     name='lib_shape',
     theory=['base.rs'],
+    uses='use core::cmp::Ordering;',
     canary='    axiom_string_from(); broadcast use axiom_ascii_to_lower;',
     units=_common.TYPES + [
+        dict(id='theory.qualkeys', kind='raw', text=_common.theory_text('qualkeys.rs')),
         dict(id='theory.types', kind='raw', text=open(os.path.join(os.path.dirname(__file__), '..', 'theory', 'types.rs')).read()),
         _common.PURL_SHAPE,
         dict(id='U-vtype.is_valid_package_type', file='purl/src/lib.rs', fn='is_valid_package_type',
